@@ -87,13 +87,17 @@ type diagnosticInSourcePackage struct {
 // For convenience, returns the same diags slice whose backing array has now
 // been modified with different diagnostics.
 func (diags Diagnostics) inRemoteSourcePackage(pkg sourceaddrs.RemotePackage) Diagnostics {
+	// The result is a new slice: the given one belongs to whoever produced
+	// it (a dependency finder may return the same diagnostics value again
+	// for another package) and must not be modified.
+	ret := make(Diagnostics, len(diags))
 	for i, diag := range diags {
-		diags[i] = diagnosticInSourcePackage{
+		ret[i] = diagnosticInSourcePackage{
 			wrapped: diag,
 			pkg:     pkg,
 		}
 	}
-	return diags
+	return ret
 }
 
 var _ Diagnostic = diagnosticInSourcePackage{}
